@@ -46,7 +46,8 @@ def _record(kind, fname, nbytes, endian, addr, value_bv):
     e = eng()
     apps = getattr(e, "apps", None)
     if apps is not None:
-        apps.append((kind, fname, nbytes, endian, parts(addr)[0], value_bv))
+        pa = parts(addr)
+        apps.append((kind, fname, nbytes, endian, pa[0], value_bv, pa[1]))
 
 
 def _ext(term, bits, signed):
@@ -143,7 +144,13 @@ def word_at(fname, addr, nbytes, endian, signed=False):
     _record("W", fname, nbytes, endian, addr, e)
     if isinstance(addr, int):
         _note_concrete(en, fname, addr, nbytes, endian)
-    return SymInt(_ext(e, bits, signed), ei, lo, hi)
+    full = _ext(e, bits, signed)
+    b = getattr(en, "bounds", {}).get(full.get_id())
+    if b is not None:
+        lo, hi = b[1], b[2]
+        if lo == hi:
+            return lo
+    return SymInt(full, ei, lo, hi)
 
 
 def infl_term(key, idx_bv):
